@@ -200,6 +200,45 @@ func init() {
 	})
 }
 
+func init() {
+	seedRule := "seed frames: 8 option combinations (block checksum x content checksum x content size) of a 4-block frame with a stored block, 4 of a Flush-made 3-block frame, empty / tiny / ReadFrom-exact-multiple (empty stored block) frames, 256K blocks, 2 legacy frames, 2 dependent-block frames from the independent encoder (all re-validated by the independent parser before use), plus large ones (1 MiB text in 64K blocks, 9 MiB in 4M blocks, legacy 8 MiB + 70000). "
+	addSpec(&propSpec{
+		ID:          "C06",
+		Level:       "fault_enumeration",
+		Rule:        seedRule + "Crash points: EVERY prefix length 1..len-1 of every small seed frame; for large frames every structural boundary +-3 bytes plus 200 (thorough 3000) seeded interior cuts. Each prefix is read by fresh Readers with concurrency {1,2,4} through WriteTo, Read with small buffers and Read with buffers >= block size. Judged: modern frames must end with an error that is not a clean end of stream; legacy frames likewise unless the cut is on a block boundary; delivered bytes must be a prefix of the content. A cell is (seed, position class of the cut: after/inside which field, concurrency, read mode).",
+		Assumptions: baseAssumptions,
+	})
+	addSpec(&propSpec{
+		ID:          "C05",
+		Rule:        seedRule + "(small, non-legacy seeds). Mutators: every single-bit flip of every structural field (header fields also with the header checksum repaired), block delete / duplicate / swap / foreign insert / splice (plain and with the content checksum repaired), seeded payload bit flips (optionally with the block checksum repaired), 2-3-bit flips, byte substitutions, hostile field overwrites. Each mutant is read with 5 (thorough 9) combinations of concurrency {1,2,4} x {Read small, Read >= block, WriteTo}. Whenever the Reader ends cleanly, the independent parser is run on exactly the consumed bytes and must accept them, end at the same offset and yield the same output. A cell is (seed, mutator, field, outcome stage, concurrency, read mode).",
+		Assumptions: append([]string{"header acceptance follows C19's rule (version, reserved and DictID bits are not judged); block grammar in the frame oracle is the lenient one; mutants that turn the first magic into the legacy magic are counted, not judged (legacy streams have no integrity fields)"}, baseAssumptions...),
+		Require: func(rs *runState) string {
+			if rs.counters["mutants_accepted_by_reader"] == 0 {
+				return "no mutant was accepted by the Reader, the oracle never ran"
+			}
+			return ""
+		},
+	})
+}
+
+func init() {
+	addSpec(&propSpec{
+		ID:          "C07",
+		Rule:        "inputs: random bytes (with and without a plausible magic/header), every structural bit flip and 150 seeded mutants of each seed frame (re-used from C05 without an oracle), 10 families of grammar-built frames with hostile fields (block size 2^31-1, stored 2^31-1, content size 2^64-1, block just above the maximum, gigantic literal / match lengths, skippable length 2^32-1, legacy oversized blocks, 5000 empty blocks), first-word sweep (all 256 words 0x184D2Axx, every 1- and 2-bit neighbour of the magics, seeded random words), skippable frames in front of valid frames (all 16 magics, lengths 0..70000), and streamed repetitions of one field 10M (thorough 25M) times: legacy magic, skippable frames, empty stored blocks, one-byte blocks. Each with concurrency 1 and 4 through Read and WriteTo, in child processes. Monitors: panic, child death (stack overflow, fault), runaway loop / no progress, deadlock state, peak memory (RSS high-water mark and memory obtained from the OS) against 64 MiB + (3*concurrency+4) x block maximum, ErrInvalidFrame for non-magics, exact skipping for the 16 skippable magics. A cell is (input family, outcome, concurrency, read mode).",
+		Assumptions: append([]string{"'never blocks forever' is decided as bounded progress: sources are finite and budgeted; a hang shows up as the runtime's deadlock report, a budget overrun or a watchdog dump in a deadlock state", "memory monitor: RSS high-water mark per case and runtime.MemStats.Sys growth; allocations that are neither touched nor reserved from the OS are invisible"}, baseAssumptions...),
+		Watchdog:    func(tier string) int { return 1800 },
+		Require: func(rs *runState) string {
+			if rs.counters["repetition_runs"] < 10 {
+				return "the long-repetition inputs did not all run"
+			}
+			if rs.counters["first_words_tested"] < 1000 {
+				return "first-word sweep did not run"
+			}
+			return ""
+		},
+	})
+}
+
 // c12Join compares the result logs of the asm and noasm workers shard by shard.
 func c12Join(rs *runState) {
 	for shard := 0; shard < 16; shard++ {
